@@ -131,6 +131,17 @@ class FnCtx:
         ty = "int" if op == "!" else T.promote(plat, self.ty(a))
         return self.mk("un", op=op, a=a, ty=ty)
 
+    def same(self, a, b):
+        """Structural equality of two expression subtrees."""
+        if a == b:
+            return True
+        if not a or not b:
+            return False
+        na, nb = self.p.N(a), self.p.N(b)
+        if (na["k"], na["op"], na["v"], na["ty"]) != (nb["k"], nb["op"], nb["v"], nb["ty"]):
+            return False
+        return all(self.same(na[f], nb[f]) for f in ("a", "b", "c"))
+
     def mix_ok(self, t1, t2):
         """Operand types whose implicit conversion cppcheck models the way C defines it.
 
@@ -208,12 +219,12 @@ class Gen:
         P = self.profile
         table = {
             #            arith cond loop ptr  mix  c03
-            "types":    {"arith": 0.7, "cond": 0.5, "loop": 0.2, "ptr": 0.2, "mix": 0.5, "c03": 0.6},
-            "loops":    {"arith": 0.0, "cond": 0.15, "loop": 0.9, "ptr": 0.3, "mix": 0.5, "c03": 0.4},
-            "ptrs":     {"arith": 0.0, "cond": 0.1, "loop": 0.1, "ptr": 1.0, "mix": 0.5, "c03": 0.15},
-            "calls":    {"arith": 0.1, "cond": 0.1, "loop": 0.1, "ptr": 0.7, "mix": 0.4, "c03": 0.1},
-            "conds":    {"arith": 0.3, "cond": 1.0, "loop": 0.5, "ptr": 0.4, "mix": 0.6, "c03": 1.0},
-            "embedded": {"arith": 0.3, "cond": 0.2, "loop": 0.3, "ptr": 0.1, "mix": 0.3, "c03": 0.2},
+            "types":    {"arith": 0.7, "cond": 0.5, "loop": 0.2, "ptr": 0.2, "mix": 0.5, "c03": 0.6, "c04safe": 0.15, "c04bug": 0.15},
+            "loops":    {"arith": 0.0, "cond": 0.15, "loop": 0.9, "ptr": 0.3, "mix": 0.5, "c03": 0.4, "c04safe": 0.3, "c04bug": 0.3},
+            "ptrs":     {"arith": 0.0, "cond": 0.1, "loop": 0.1, "ptr": 1.0, "mix": 0.5, "c03": 0.3, "c04safe": 0.9, "c04bug": 0.9},
+            "calls":    {"arith": 0.1, "cond": 0.1, "loop": 0.1, "ptr": 0.7, "mix": 0.4, "c03": 0.3, "c04safe": 0.5, "c04bug": 0.5},
+            "conds":    {"arith": 0.3, "cond": 1.0, "loop": 0.5, "ptr": 0.4, "mix": 0.6, "c03": 1.0, "c04safe": 0.4, "c04bug": 0.4},
+            "embedded": {"arith": 0.3, "cond": 0.2, "loop": 0.3, "ptr": 0.1, "mix": 0.3, "c03": 0.2, "c04safe": 0.1, "c04bug": 0.1},
         }
         return table[name].get(P, 0.3)
 
@@ -303,7 +314,20 @@ class Gen:
         return c.mk("deref", a=c.mk("var", v=p, ty="ptr"), ty=c.vars[p - 1]["pt"])
 
     def expr(self, c, depth, exclude=(), nonneg_lit=False):
-        """A side-effect free integer expression."""
+        """A side-effect free integer expression without operators applied to two identical operands (x - x, b == b,
+        !b || !b): cppcheck's duplicate-expression reasoning has defects of its own (pinned programs) and such code
+        is not what the property is about."""
+        for _ in range(6):
+            e = self.expr0(c, depth, exclude, nonneg_lit)
+            n = c.p.N(e)
+            if n["k"] in ("bin", "land", "lor") and c.same(n["a"], n["b"]):
+                continue
+            if n["k"] == "cond" and c.same(n["b"], n["c"]):
+                continue
+            return e
+        return self.atom(c, nonneg_lit, exclude)
+
+    def expr0(self, c, depth, exclude=(), nonneg_lit=False):
         r = self.rng
         if depth <= 0 or self.chance(0.25):
             return self.atom(c, nonneg_lit, exclude)
@@ -345,7 +369,10 @@ class Gen:
         if x < 0.94:
             return c.cast(self.pick_type(wide=False) if self.chance(0.8) else r.choice(["uchar", "schar", "short", "ushort"]),
                           self.expr(c, depth - 1, exclude))
-        return self.condition(c, depth - 1, exclude)
+        e = self.condition(c, depth - 1, exclude)
+        if c.ty(e) == "ptr":
+            e = c.bin("!=", e, c.num(0))
+        return e
 
     def nonlit(self, c, depth, exclude=()):
         e = self.expr(c, depth, exclude)
@@ -359,10 +386,13 @@ class Gen:
     def cmp(self, c, depth, exclude=()):
         r = self.rng
         a = self.nonlit(c, depth, exclude)
-        if self.chance(0.7):
-            b = self.const(c)
-        else:
-            b = self.expr(c, depth, exclude)
+        b = self.const(c)
+        if not self.chance(0.7):
+            for _ in range(6):
+                b2 = self.expr(c, depth, exclude)
+                if not c.same(a, b2):
+                    b = b2
+                    break
         return c.bin(r.choice(CMP), a, b)
 
     def condition(self, c, depth, exclude=()):
@@ -370,7 +400,12 @@ class Gen:
         x = r.random()
         if depth > 0 and x < 0.25:
             k = r.choice(["land", "lor"])
-            return c.mk(k, a=self.condition(c, depth - 1, exclude), b=self.condition(c, depth - 1, exclude), ty="int")
+            a = self.condition(c, depth - 1, exclude)
+            for _ in range(6):
+                b = self.condition(c, depth - 1, exclude)
+                if not c.same(a, b):
+                    return c.mk(k, a=a, b=b, ty="int")
+            return a
         if x < 0.33:
             return c.un("!", self.nonlit(c, max(depth - 1, 0), exclude))
         if x < 0.40:
@@ -417,7 +452,8 @@ class Gen:
 
     def st_compound(self, c):
         r = self.rng
-        ws = [i for i in c.scalars(writable=True)]
+        # (narrower variables: cppcheck's ranges ignore the conversion back to the narrow type - pinned program)
+        ws = [i for i in c.scalars(writable=True) if T.RANK[c.vty(i)] >= T.RANK["int"]]
         if not ws:
             return self.st_assign(c)
         i = r.choice(ws)
@@ -439,7 +475,7 @@ class Gen:
     def st_embedded(self, c):
         """y = x++ ;  y = (x = e) + k ;  y = x-- * 2 ...  (x not address-taken, x not elsewhere in the expression)."""
         r = self.rng
-        xs = [i for i in c.scalars(writable=True) if i not in c.addr_taken]
+        xs = [i for i in c.scalars(writable=True) if i not in c.addr_taken and T.RANK[c.vty(i)] >= T.RANK["int"]]
         ys = [i for i in c.scalars(initialised=False, writable=True)]
         if not xs or len(ys) < 2:
             return self.st_assign(c)
@@ -675,13 +711,298 @@ class Gen:
             c.init.add(wrote)
         return c.mk("call", a=a, b=cx)
 
+
+    # ---- C03: related conditions -------------------------------------------------------------------------
+    def rel_cond(self, c, v, op, k, how):
+        """A condition related to `v op k`: same / opposite / implied / contradicting / swapped operands."""
+        NEG = {"<": ">=", "<=": ">", ">": "<=", ">=": "<", "==": "!=", "!=": "=="}
+        SWAP = {"<": ">", "<=": ">=", ">": "<", ">=": "<=", "==": "==", "!=": "!="}
+        if how == "same":
+            return c.bin(op, c.var(v), c.num(k))
+        if how == "opp":
+            return c.bin(NEG[op], c.var(v), c.num(k))
+        if how == "swap":
+            return c.bin(SWAP[op], c.num(k), c.var(v)) if k >= 0 else c.bin(op, c.var(v), c.num(k))
+        if how == "swapopp":
+            return c.bin(SWAP[NEG[op]], c.num(k), c.var(v)) if k >= 0 else c.bin(NEG[op], c.var(v), c.num(k))
+        if how == "near":
+            return c.bin(self.rng.choice(CMP), c.var(v), c.num(k + self.rng.choice([-1, 1, 1, 2])))
+        if how == "not":
+            return c.un("!", c.bin(op, c.var(v), c.num(k)))
+        return self.cmp(c, 1)
+
+    def modifier(self, c, v):
+        """A statement that (possibly) changes variable v between two related conditions."""
+        r = self.rng
+        wide = T.RANK[c.vty(v)] >= T.RANK["int"]
+        uns = not T.signed(self.plat, c.vty(v))
+        opts = ["asg", "asg", "other"]
+        if wide:
+            opts += ["inc", "cmp"]
+        ps = [p for p in c.ptr_valid if v in c.ptr_target.get(p, ())]
+        if ps:
+            opts += ["alias", "alias"]
+        hs = [h for h in c.helpers if h["params"] and h["params"][0]["ty"] == "ptr" and h["params"][0]["pt"] == c.vty(v)
+              and v in c.addr_taken]
+        if hs:
+            opts += ["call", "call"]
+        k = r.choice(opts)
+        if k == "asg":
+            return c.stmt_expr(c.asg("=", c.var(v), self.expr(c, r.choice([0, 1, 1]))))
+        if k == "inc":
+            return c.stmt_expr(c.inc("++" if uns else r.choice(["++", "--"]), self.chance(0.5), c.var(v)))
+        if k == "cmp":
+            return c.stmt_expr(c.asg(r.choice(["+=", "*=", "&=", "|="] + ([] if uns else ["-="])), c.var(v), c.num(r.choice([1, 2, 3]))))
+        if k == "alias":
+            p = r.choice(sorted(ps))
+            return c.stmt_expr(c.asg("=", c.mk("deref", a=c.mk("var", v=p, ty="ptr"), ty=c.vars[p - 1]["pt"]), self.expr(c, 1)))
+        if k == "call":
+            h = r.choice(hs)
+            args = [c.mk("addr", a=c.var(v), ty="ptr")] + [self.expr(c, 1) for _ in h["params"][1:]]
+            return c.mk("call", a=0, b=c.mk("callx", v=h["idx"], ss=args, ty=h["ret"]))
+        return self.st_assign(c)
+
+    def st_related(self, c, depth):
+        r = self.rng
+        vs = [i for i in c.scalars(writable=True)]
+        if not vs or depth <= 0:
+            return self.st_assign(c)
+        v = r.choice(vs)
+        ty = c.vty(v)
+        k = r.choice([0, 0, 1, 2, 3, 5, 10, 100, 127, 128, 255, 256, -1, 65535, 65536])
+        op = r.choice(CMP)
+        c1 = r.choice([lambda: c.bin(op, c.var(v), c.num(k)), lambda: c.bin(op, c.var(v), c.num(k)), lambda: c.var(v),
+                       lambda: c.un("!", c.var(v))])()
+        n1 = c.p.N(c1)
+        if n1["k"] == "var":
+            op2, k2 = "!=", 0
+        elif n1["k"] == "un":
+            op2, k2 = "==", 0
+        else:
+            op2, k2 = op, k
+        how = r.choice(["same", "opp", "swap", "swapopp", "near", "near", "not", "other"])
+        c2 = self.rel_cond(c, v, op2, k2, how)
+        mid = []
+        if self.chance(0.45):
+            mid.append(self.modifier(c, v))
+        if self.chance(0.2):
+            mid.append(self.st_assign(c))
+        form = r.choice(["nested", "nested", "early", "early", "else", "seq", "loop"])
+        save = (set(c.init), set(c.ptr_valid))
+
+        def blk(n=1):
+            ss = self.body(c, n, depth - 1)
+            c.init, c.ptr_valid = set(save[0]), set(save[1])
+            return ss
+
+        if form == "nested":
+            inner = c.mk("if", a=c2, b=c.block(blk()), c=c.block(blk()) if self.chance(0.3) else 0)
+            s = c.mk("if", a=c1, b=c.block(mid + [inner]), c=0)
+        elif form == "else":
+            inner = c.mk("if", a=c2, b=c.block(blk()), c=0)
+            s = c.mk("if", a=c1, b=c.block(blk()), c=c.block(mid + [inner]))
+        elif form == "early":
+            jump = c.mk("ret", a=self.ret_expr(c))
+            if c.loop_depth > 0 and c.in_switch == 0 and self.chance(0.5):
+                jump = c.mk("break") if (not c.loop_kinds or c.loop_kinds[-1] != "cont-ok" or self.chance(0.5)) else c.mk("continue")
+            first = c.mk("if", a=c1, b=c.block(blk(r.choice([0, 1])) + [jump]), c=0)
+            second = c.mk("if", a=c2, b=c.block(blk()), c=0)
+            s = c.block([first] + mid + [second])
+        elif form == "seq":
+            s = c.block([c.mk("if", a=c1, b=c.block(blk()), c=0)] + mid + [c.mk("if", a=c2, b=c.block(blk()), c=0)])
+        else:
+            # a loop whose body changes the tested variable between/around the conditions
+            i = self.new_counter(c)
+            if not i or c.loop_depth >= 2:
+                s = c.mk("if", a=c1, b=c.block(mid + [c.mk("if", a=c2, b=c.block(blk()), c=0)]), c=0)
+            else:
+                c.reserved.add(i)
+                c.init.add(i)
+                kk = r.choice([2, 3, 4])
+                body = [c.mk("if", a=c2, b=c.block(blk()), c=0), self.modifier(c, v)]
+                if self.chance(0.5):
+                    body.reverse()
+                loop = c.mk("for", a=c.asg("=", c.var(i), c.num(0)), b=c.bin("<", c.var(i), c.num(kk)), c=c.inc("++", False, c.var(i)),
+                            d=c.block(body))
+                c.reserved.discard(i)
+                s = c.mk("if", a=c1, b=c.block([loop]), c=0)
+        c.init, c.ptr_valid = save
+        return s
+
+    # ---- C04: what the runtime-error checkers look at, correct by construction (guarded) or with the guard removed ----
+    def st_c04(self, c, depth, bug):
+        r = self.rng
+        kind = r.choice(["div", "div", "idx", "idx", "ptr", "ptr", "init", "init", "shift", "ovf"])
+        ints = [i for i in c.scalars() if T.RANK[c.vty(i)] >= T.RANK["int"] and T.signed(self.plat, c.vty(i)) and i not in c.reserved]
+        outs = [i for i in c.scalars(initialised=False, writable=True) if i > c.np and c.vty(i) == "int"]
+        if not ints or not outs:
+            return self.st_assign(c)
+        out = r.choice(outs)
+        a = r.choice(ints)
+
+        def done(s):
+            return s
+
+        if kind == "div":
+            d = r.choice(ints)
+            dv = lambda: c.var(d)
+            opn = r.choice(["/", "%"])
+            use = c.stmt_expr(c.asg("=", c.var(out), c.bin(opn, self.expr(c, 1), dv())))
+            form = r.choice(["if", "ifnz", "early", "tern", "gt", "assign0"])
+            if form == "assign0":
+                # d = 0 on one path only
+                setz = c.mk("if", a=self.cmp(c, 0), b=c.block([c.stmt_expr(c.asg("=", c.var(d), c.num(0)))]), c=0)
+                if d in c.reserved or d <= 0:
+                    return self.st_assign(c)
+                guard = c.mk("if", a=c.bin("!=", dv(), c.num(0)), b=c.block([use]), c=0)
+                c.init.add(out) if False else None
+                return c.block([setz, use if bug else guard])
+            if bug:
+                c.init.add(out)
+                return use
+            if form == "if":
+                return c.mk("if", a=c.bin("!=", dv(), c.num(0)), b=c.block([use]), c=0)
+            if form == "ifnz":
+                return c.mk("if", a=dv(), b=c.block([use]), c=0)
+            if form == "gt":
+                return c.mk("if", a=c.bin(">", dv(), c.num(0)), b=c.block([use]), c=0)
+            if form == "early":
+                c.init.add(out)
+                return c.block([c.mk("if", a=c.bin("==", dv(), c.num(0)), b=c.block([c.mk("ret", a=self.ret_expr(c))]), c=0), use])
+            c.init.add(out)
+            return c.stmt_expr(c.asg("=", c.var(out), c.cond(c.bin("!=", dv(), c.num(0)), c.bin(opn, self.expr(c, 1), dv()), c.num(0))))
+        if kind == "idx":
+            arrs = [i for i, v in enumerate(c.vars, 1) if v["ty"] == "arr" and i in c.init]
+            if not arrs:
+                return self.st_assign(c)
+            ar = r.choice(arrs)
+            n = c.vars[ar - 1]["n"]
+            ix = lambda: c.var(a)
+            rd = lambda: c.mk("idx", a=c.mk("var", v=ar, ty="arr"), b=ix(), ty=c.vars[ar - 1]["pt"])
+            use = c.stmt_expr(c.asg("=", c.var(out), rd())) if self.chance(0.6) else c.stmt_expr(c.asg("=", rd(), self.expr(c, 1)))
+            form = r.choice(["range", "early", "const", "neg"])
+            if form == "const":
+                k = r.randrange(n) if not bug else r.choice([n, n + 1, -1])
+                setk = c.stmt_expr(c.asg("=", c.var(a), c.num(k)))
+                if a in c.reserved:
+                    return self.st_assign(c)
+                return c.block([setk, use])
+            if bug:
+                if form == "neg":
+                    return c.mk("if", a=c.bin("<", ix(), c.num(0)), b=c.block([use]), c=0)
+                return c.mk("if", a=c.bin(r.choice([">=", ">"]), ix(), c.num(n)), b=c.block([use]), c=0)
+            if form == "early":
+                g = c.mk("lor", a=c.bin("<", ix(), c.num(0)), b=c.bin(">=", ix(), c.num(n)), ty="int")
+                return c.block([c.mk("if", a=g, b=c.block([c.mk("ret", a=self.ret_expr(c))]), c=0), use])
+            g = c.mk("land", a=c.bin(">=", ix(), c.num(0)), b=c.bin("<", ix(), c.num(n)), ty="int")
+            return c.mk("if", a=g, b=c.block([use]), c=0)
+        if kind == "ptr":
+            ps = sorted(p for p in c.ptr_target if c.ptr_target[p])
+            if not ps:
+                return self.st_assign(c)
+            p = r.choice(ps)
+            tg = [t for t in sorted(c.ptr_target[p]) if c.vars[t - 1]["ty"] != "arr" and t in c.init]
+            if not tg:
+                return self.st_assign(c)
+            t = r.choice(tg)
+            pv = lambda: c.mk("var", v=p, ty="ptr")
+            setp = c.stmt_expr(c.asg("=", pv(), c.num(0)))
+            cond_set = c.mk("if", a=self.cmp(c, 0), b=c.block([c.stmt_expr(c.asg("=", pv(), c.mk("addr", a=c.var(t), ty="ptr")))]), c=0)
+            der = lambda: c.mk("deref", a=pv(), ty=c.vars[p - 1]["pt"])
+            use = c.stmt_expr(c.asg("=", c.var(out), der())) if self.chance(0.5) else c.stmt_expr(c.asg("=", der(), self.expr(c, 1)))
+            c.ptr_valid.discard(p)
+            c.init.add(p)
+            form = r.choice(["if", "ifne", "early", "not"])
+            if bug:
+                return c.block([setp] + ([cond_set] if self.chance(0.5) else []) + [use])
+            if form == "if":
+                g = c.mk("if", a=pv(), b=c.block([use]), c=0)
+            elif form == "ifne":
+                g = c.mk("if", a=c.bin("!=", pv(), c.num(0)), b=c.block([use]), c=0)
+            elif form == "not":
+                g = c.mk("if", a=c.un("!", pv()), b=c.block(self.body(c, 1, 0)), c=c.block([use]))
+            else:
+                g = c.block([c.mk("if", a=c.bin("==", pv(), c.num(0)), b=c.block([c.mk("ret", a=self.ret_expr(c))]), c=0), use])
+            return c.block([setp, cond_set, g])
+        if kind == "init":
+            fresh = [i for i in c.scalars(initialised=False, writable=True) if i > c.np and i not in c.init and i != out]
+            if not fresh:
+                return self.st_assign(c)
+            x = r.choice(fresh)
+            form = r.choice(["ifelse", "switch", "ptrcall", "loop", "cond"])
+            use = c.stmt_expr(c.asg("=", c.var(out), c.bin("+", c.var(x), c.num(1))))
+            if form == "ptrcall":
+                hs = [h for h in c.helpers if h["params"] and h["params"][0]["ty"] == "ptr" and h["params"][0]["pt"] == c.vty(x)
+                      and h["inits_ptr"] and x in c.addr_taken]
+                if hs and not bug:
+                    h = r.choice(hs)
+                    args = [c.mk("addr", a=c.var(x), ty="ptr")] + [self.expr(c, 1) for _ in h["params"][1:]]
+                    c.init.add(x)
+                    c.init.add(out)
+                    return c.block([c.mk("call", a=0, b=c.mk("callx", v=h["idx"], ss=args, ty=h["ret"])), use])
+                form = "ifelse"
+            cnd = self.cmp(c, 0)
+            a1 = c.stmt_expr(c.asg("=", c.var(x), self.expr(c, 1)))
+            a2 = c.stmt_expr(c.asg("=", c.var(x), self.expr(c, 1)))
+            if form in ("ifelse", "loop", "cond"):
+                first = c.mk("if", a=cnd, b=c.block([a1]), c=0 if bug else c.block([a2]))
+                if not bug:
+                    c.init.add(x)
+                    c.init.add(out)
+                    return c.block([first, use])
+                # bug variant: x is set on one path only; the use is guarded by the same condition half of the time
+                if self.chance(0.5):
+                    cnd2 = self.rel_cond(c, 1, "==", 0, "other")
+                    return c.block([first, c.mk("if", a=cnd2, b=c.block([use]), c=0)])
+                return c.block([first, use])
+            sel = c.bin("&", c.var(a), c.num(3))
+            cases = [c.mk("case", op="case", v=0, ss=[a1, c.mk("break")]), c.mk("case", op="case", v=1, ss=[a2, c.mk("break")])]
+            if not bug:
+                cases.append(c.mk("case", op="default", ss=[c.stmt_expr(c.asg("=", c.var(x), c.num(0))), c.mk("break")]))
+                c.init.add(x)
+                c.init.add(out)
+            return c.block([c.mk("switch", a=sel, ss=cases), use])
+        if kind == "shift":
+            s = r.choice(ints)
+            width = T.bits(self.plat, "int")
+            base = c.num(1) if self.chance(0.6) else c.bin("&", c.var(a), c.num(255))
+            form = r.choice(["mask", "guard", "const"])
+            if form == "const":
+                k = r.choice([0, 1, 7, width - 2]) if not bug else r.choice([width, width + 1, 64, -1])
+                sh = c.num(k)
+                c.init.add(out)
+                return c.stmt_expr(c.asg("=", c.var(out), c.bin("<<", base, sh)))
+            if form == "mask" and not bug:
+                c.init.add(out)
+                return c.stmt_expr(c.asg("=", c.var(out), c.bin("<<", base, c.bin("&", c.var(s), c.num(7)))))
+            use = c.stmt_expr(c.asg("=", c.var(out), c.bin(r.choice(["<<", ">>"]), base, c.var(s))))
+            if bug:
+                return c.mk("if", a=c.bin(">=", c.var(s), c.num(width)), b=c.block([use]), c=0)
+            g = c.mk("land", a=c.bin(">=", c.var(s), c.num(0)), b=c.bin("<", c.var(s), c.num(width - 1 - 8)), ty="int")
+            return c.mk("if", a=g, b=c.block([use]), c=0)
+        # overflow
+        big = T.tmax(self.plat, "int")
+        k = r.choice([1, 2, 100, big // 2, big - 1, big])
+        if bug:
+            seta = c.stmt_expr(c.asg("=", c.var(out), c.num(big - r.choice([0, 1]))))
+            c.init.add(out)
+            return c.block([seta, c.stmt_expr(c.asg("=", c.var(out), c.bin("+", c.var(out), c.num(k if k > 1 else 2))))])
+        use = c.stmt_expr(c.asg("=", c.var(out), c.bin("+", c.var(a), c.num(k))))
+        if k == big:
+            g = c.bin("<=", c.var(a), c.num(0))
+        else:
+            g = c.bin("<", c.var(a), c.num(big - k))
+        return c.mk("if", a=g, b=c.block([use]), c=0)
+
     def statement(self, c, depth):
         r = self.rng
         c.budget -= 1
         w = [("assign", 4.0), ("compound", 1.5), ("embedded", 1.2 * self.knob("embedded")),
              ("if", 2.5 * self.knob("conds") if depth > 0 else 0), ("loop", 2.5 * self.knob("loops") if depth > 0 else 0),
              ("switch", 0.7 * self.knob("conds") if depth > 0 else 0), ("jump", 0.8 * self.knob("conds")),
-             ("ptr", 1.5 * self.knob("ptrs")), ("call", 1.5 * self.knob("calls") if c.helpers else 0)]
+             ("ptr", 1.5 * self.knob("ptrs")), ("call", 1.5 * self.knob("calls") if c.helpers else 0),
+             ("related", (4.0 if self.profile == "c03" else 0.3) if depth > 0 else 0),
+             ("c04", 5.0 if self.profile in ("c04safe", "c04bug") else 0)]
         tot = sum(x for _, x in w)
         x = r.random() * tot
         for name, wt in w:
@@ -704,6 +1025,10 @@ class Gen:
             return self.st_jump(c, depth)
         if name == "ptr":
             return self.st_ptr_assign(c)
+        if name == "related":
+            return self.st_related(c, depth)
+        if name == "c04":
+            return self.st_c04(c, depth, self.profile == "c04bug" and self.chance(0.5))
         return self.st_call(c)
 
     # ---- functions ---------------------------------------------------------------------------------------
